@@ -100,6 +100,45 @@ impl DetectProp for C10 {
             }
             v.push(Case { bytes: b, sett: Sett::default(), tag: format!("nomodel:large-legacy-below-limit:{}", enc) });
         }
+        // neighbours across block boundaries: every block boundary of the range table that is not a multiple of 128
+        // (resp. 256, 4096) lies inside one "page"; texts in which a character of the later block only ever follows a
+        // character of the earlier block directly (and the other way round) – unicode_ranges() must still be the union
+        // of what each character yields alone. Three texts per direction, every third boundary each, so that no block
+        // of a text is also reached from a position that follows a space.
+        let table = vh::unicode_ranges();
+        let mut bounds: Vec<(char, char)> = vec![];
+        for (_, start, _) in table.iter() {
+            if *start < 0x80 || *start % 4096 == 0 {
+                continue;
+            }
+            if let (Some(a), Some(b)) = (char::from_u32(*start - 1), char::from_u32(*start)) {
+                if vh::unicode_range(a).is_some() && vh::unicode_range(b).is_some() && vh::unicode_range(a) != vh::unicode_range(b) {
+                    bounds.push((a, b));
+                }
+            }
+        }
+        bounds.sort();
+        bounds.dedup();
+        for dir in 0..2 {
+            for k in 0..3usize {
+                let mut t = String::from("The quick brown fox jumps over the lazy dog and keeps running through the quiet forest. ");
+                for (i, (a, b)) in bounds.iter().enumerate() {
+                    if i % 3 != k {
+                        continue;
+                    }
+                    let (x, y) = if dir == 0 { (*a, *b) } else { (*b, *a) };
+                    t.push_str("word ");
+                    t.push(x);
+                    t.push(y);
+                    t.push(' ');
+                }
+                t.push_str("and then the story goes on in plain words until the very end of the page.");
+                let mut st = Sett::default();
+                st.incl = vec!["utf-8".to_string()];
+                st.thr = 1.0;
+                v.push(Case { bytes: t.into_bytes(), sett: st, tag: format!("block-boundary-neighbours:dir{}:{}", dir, k) });
+            }
+        }
         v
     }
     fn oracle(&self, cx: &mut Ctx, case: &Case, raw: &RealRaw) {
